@@ -31,11 +31,12 @@ if [ "$TARGET" = "c19_csv" ] && [ -d /repo/tests ]; then
   { cat /repo/tests/test.store.stam.csv; printf '\n##### test.annotations.stam.csv\n'; cat /repo/tests/test.annotations.stam.csv; printf '\n##### test.annotationset.stam.csv\n'; cat /repo/tests/test.annotationset.stam.csv; printf '\n##### hello.txt\n'; cat /repo/tests/hello.txt; } > "$WORK/corpus/pinned-example" 2>/dev/null
 fi
 N=$(ls "$WORK/corpus" | wc -l)
-# 4. the campaign: deterministic for a given (tree, runs, seed); known findings are tolerated inside the target
+# 4. the campaign: deterministic for a given (tree, runs, seed); known findings are tolerated inside the target.
+#    All paths are absolute: the target changes its working directory for every input.
 cd "$FUZZDIR" || exit 2
 BIN="$FUZZDIR/target/x86_64-unknown-linux-gnu/release/$TARGET"
 [ -x "$BIN" ] || { echo "INCONCLUSIVE property=C19 fuzz binary $BIN missing"; exit 2; }
-"$BIN" "$WORK/corpus" -runs="$RUNS" -seed="$SEED" -dict="$FUZZDIR/dict/$TARGET.dict" -max_len=16384 -timeout=30 -rss_limit_mb=3072 \
+"$BIN" "$WORK/corpus" -runs="$RUNS" -seed="$SEED" -dict="$FUZZDIR/dict/$TARGET.dict" -max_len=16384 -timeout=120 -rss_limit_mb=3072 \
    -artifact_prefix="$WORK/artifacts/" -print_final_stats=1 >"$WORK/fuzz.log" 2>&1
 RC=$?
 EXECS=$(grep -a "stat::number_of_executed_units" "$WORK/fuzz.log" | awk '{print $2}')
@@ -49,7 +50,7 @@ if [ -n "$ART" ]; then
   cp "$WORK/artifacts/$ART" "$VERIF_ROOT/replays/C19-fuzz-$TARGET-$SEED-${ART##*-}.input"
   grep -a "C19 failure\|panicked at\|ERROR: libFuzzer\|SUMMARY" "$WORK/fuzz.log" | head -8 | cut -c1-400
   if [ "$KIND" = "timeout" ] || [ "$KIND" = "slow" ]; then
-    echo "INCONCLUSIVE property=C19 fuzz target $TARGET: one input exceeded the 30 s wall-clock limit (not a violation); replay=$OUT"
+    echo "INCONCLUSIVE property=C19 fuzz target $TARGET: one input exceeded the 120 s wall-clock limit of the campaign (not a violation); replay=$OUT"
     exit 2
   fi
   echo "VIOLATION property=C19 replay=$OUT (fuzz target $TARGET, seed $SEED, artifact kind $KIND)"
